@@ -105,6 +105,16 @@ def expr_cases(prefix, exprs, prelude="x = 3\ny = 0.5 - 2*i\nf(x) = x\n", tab=4)
         yield gen.hist_case("%s%d" % (prefix, k), [prelude, e + "\n"] if prelude else [e + "\n"], tab)
 
 
+# numeric classes a generator of "typical" values does not reach: halves, signed zero, subnormals, the edges of the
+# exactly representable integers, neighbours in the last bit, long decimal texts, the printer's magnitude thresholds
+VALUE_CLASSES = ["0", "(0*-1)", "0.5", "1.5", "2.5", "-0.5", "-1.5", "-2.5", "1", "-1", "2", "3", "10", "0.1", "0.2", "0.30000000000000004", "0.1+0.2",
+                 "4.9e-324", "-4.9e-324", "2.2250738585072014e-308", "2.225073858507201e-308", "1e-7", "0.000001", "1e15", "1e16", "1e17", "1e21", "1e22",
+                 "9007199254740991", "9007199254740992", "9007199254740993", "9007199254740994", "4503599627370496.5", "4503599627370497.5",
+                 "0.49999999999999994", "0.5000000000000001", "1.0000000000000002", "0.9999999999999999", "123456789012345678901234567890",
+                 "0.1000000000000000055511151231257827021181583404541015625", "1.7976931348623157e308", "8.98846567431158e307", "170", "171", "-170",
+                 "i", "(0-i)", "(0.5*i)", "(1+i)", "(1-i)", "(1e-320*i)", "(3+4*i)", "(1e308*10)", "(0-1e308*10)", "(1e308*10-1e308*10)"]
+
+
 MAGS = ["0", "1", "-1", "0.5", "2.75", "1e12", "1e-12", "123456.789", "(2+3*i)", "(0-i)"]
 
 
@@ -151,8 +161,9 @@ def measurement_exprs(rng, quick):
         for a, b in pairs:
             m1 = rng.choice(["1", "2.5", "1e15", "1e-15", "3", "0", "(1+i)"])
             m2 = rng.choice(["4", "0.125", "1e9", "7e-9", "1", "(2-i)"])
-            out += ["%s %s + %s %s" % (m1, a, m2, b), "%s %s - %s %s" % (m1, a, m2, b),
-                    "(%s %s + %s %s) as %s" % (m1, a, m2, b, a)]
+            q1 = "%s %s" % (m1, a) if m1[0].isdigit() else "(%s as %s)" % (m1, a)     # NUMBER UNIT needs a plain literal
+            q2 = "%s %s" % (m2, b) if m2[0].isdigit() else "(%s as %s)" % (m2, b)
+            out += ["%s + %s" % (q1, q2), "%s - %s" % (q1, q2), "(%s + %s) as %s" % (q1, q2, a)]
         for a in us:
             for k in ["2", "0", "1", "-1", "0.5", "1e10", "(1+i)", "i", "(0*i)", "1e-16", "1e-20", "1e-300", "(1e-17*i)", "1e300", "(0*-1)"]:
                 out += ["6 %s * %s" % (a, k), "%s * 6 %s" % (k, a), "6 %s / %s" % (a, k), "(6 %s / %s) * %s" % (a, k, k),
@@ -331,11 +342,17 @@ HIST_ALPHABET = [
     "clear", "sin = 1", "sin(a) = a", "delete sin", "delete sin(a)", "pi = 3", "s = sin", "s(a) = a",
 ]
 HIST_PROBES = "x\nf\nh\ns\nf(0)\nf(1)\nf(1, 2)\nh(1)\nh(1, 2)\ns(0)\nsin(0)\npi\n"
+HIST_PROBES_MORE = HIST_PROBES + "gg\nk\ny\nhh\nhh(1)\né\nünï_1\n"
 HIST_EXTRA = ["delete s(a)", "delete s", "h = sin", "f(x) = x * 2", "f(1) = 1", "f(1, y) = y", "delete f(1, y)", "delete f(q)", "delete f(a, k)",
-              "y = f", "y = x", "x = x + 1", "f(a) = f", "g(0) = 1; g(n) = n * g(n - 1)", "g(5)", "g(0) = 1; g(n) = n * g(n - 1); delete g(n)",
+              "y = f", "y = x", "x = x + 1", "f(a) = f", "gg(0) = 1; gg(n) = n * gg(n - 1)", "gg(5)", "gg(0) = 1; gg(n) = n * gg(n - 1); delete gg(n)",
               "e = 2", "delete pi", "i(x) = x", "delete i(x)", "c = sin", "cos(0) = 1", "delete cos(0)", "f() = 9", "f()", "delete f()",
               "h = (f)", "k(a) = h(a)", "k(1)", "x = [1,2;3,4]", "x = 5 km", "delete x(a)", "x = f(1)", "f(a, a) = a", "f(3, 4)",
-              "unknown", "delete unknown", "delete unknown(a)", "1 +", "x = ", "f(a+1) = 2", "delete 3", "x = 2; y = x; delete x; y"]
+              "unknown", "delete unknown", "delete unknown(a)", "1 +", "x = ", "f(a+1) = 2", "delete 3", "x = 2; y = x; delete x; y",
+              # copies of copies, names reused for another kind of value, the same statement twice, third redefinitions
+              "hh = h", "hh(a) = 3", "delete hh(a)", "delete hh", "hh", "hh(1)", "h = hh", "f = h", "x = f", "x = sin", "f = x", "f = [1,2]", "f = 2 km", "f(a) = a; f(a) = a",
+              "f(a) = 1; f(a) = 2; f(a) = 3", "f(a) = 1; f(p) = 2; f(q) = 3; f", "delete f(a); delete f(a)", "clear; clear", "x = 1; x = 1", "h = f; h = f",
+              "f(a) = a; h = f; hh = h; delete hh(a); f; h", "f(a) = a; f(a, k) = k; h = f; delete h(a); delete h(a, k); h; f", "x = x", "f = f", "h = h; h(a) = 9; h",
+              "é = 2", "é(a) = a", "é", "ünï_1 = é", "delete é", "f(é) = é * 2", "f(2)", "x = 3 m; x = x as cm; x", "x = [1,2;3,4]; x = x * x; x", "x = f; x(a) = 0; f"]
 
 
 def hist_exhaustive(maxlen):
@@ -355,7 +372,7 @@ def hist_random(rng, count, maxlen=40):
             texts.append(s + "\n")
             if rng.random() < 0.3:
                 texts.append(HIST_PROBES)
-        texts.append(HIST_PROBES + "g\nk\ny\n")
+        texts.append(HIST_PROBES_MORE)
         yield gen.hist_case("hr%d" % k, texts)
 
 
